@@ -866,7 +866,26 @@ class Exec:
         return set(self._comp(node, fr))
 
     def e_GeneratorExp(self, node, fr):
+        if len(node.generators) == 1 and not node.generators[0].ifs:
+            g = node.generators[0]
+            it = self.eval(g.iter, fr)
+            if isinstance(it, SBytes) and not isinstance(it.length(), int):
+                # generator over a byte string of symbolic length: one generic element at a fresh index
+                from .models import SymComp
+                j = self.fresh_int("_j")
+                env = Env(fr.env)
+                f2 = Frame(env, fr.globs, fr.cls, fr.info, fr.selfobj)
+                self.assign(g.target, it.elem_at(self, j.t), f2)
+                return SymComp(j, it.blen(), self.eval(node.elt, f2))
+            return [self.eval(node.elt, Frame(e, fr.globs, fr.cls, fr.info, fr.selfobj))
+                    for e in self._comp_envs_with(g, it, fr)]
         return list(self._comp(node, fr))      # evaluated eagerly (only used under any/all/tuple/join/dict)
+
+    def _comp_envs_with(self, g, it, fr):
+        for item in self.iterate(it):
+            e2 = Env(fr.env)
+            self.assign(g.target, item, Frame(e2, fr.globs, fr.cls, fr.info, fr.selfobj))
+            yield e2
 
     def e_DictComp(self, node, fr):
         out = {}
@@ -1249,12 +1268,29 @@ class Exec:
             fr.env.vars[(a.asname or a.name).split(".")[0]] = mod if a.asname else importlib.import_module(
                 a.name.split(".")[0])
 
+    def s_ImportFrom(self, node, fr):
+        import importlib
+        name = node.module or ""
+        if node.level:
+            pkg = (fr.globs.get("__package__") or fr.globs.get("__name__", "")).split(".")
+            base = pkg[:len(pkg) - (node.level - 1)] if node.level > 1 else pkg
+            name = ".".join(base + ([name] if name else []))
+        mod = importlib.import_module(name)
+        for a in node.names:
+            fr.env.vars[a.asname or a.name] = getattr(mod, a.name)
+
     def s_For(self, node, fr):
         from . import loops
         it = self.eval(node.iter, fr)
         if isinstance(it, SBytes) and not isinstance(it.length(), int):
             return loops.symbolic_for(self, node, it, fr)
         items = self.iterate(it)
+        if self.verify_key is not None and fr.info is not None and fr.info.key == self.verify_key:
+            c = self.contracts.get(self.verify_key)
+            if c is not None:
+                ordinal = loops.loops_in_source_order(fr.info.node).index(node)
+                if "state" in c.loops.get(ordinal, {}):
+                    return loops.concrete_for(self, node, items, fr, c.loops[ordinal], ordinal)
         broke = False
         for item in items:
             self.assign(node.target, item, fr)
